@@ -109,7 +109,10 @@ def run_chained(desc):
 def run_shard(desc):
     if desc.get("chained"):
         return run_chained(desc)
-    return F.explore(desc, make_case, owns, signature)
+    out = F.explore(desc, make_case, owns, signature)
+    # the unit that is evaluated (and that distinct_nontrivial classifies) is one send result, not one scenario
+    out["evaluations"] = out["counters"].get("results_checked", out["evaluations"])
+    return out
 
 
 def replay(witness):
